@@ -32,6 +32,37 @@ from sim import sched as S
 
 MODULES = [tco, llcmod, nfc.snep.server, nfc.handover.server]
 CAUSES = ('disc', 'none', 'commerr', 'terminate', 'ioerror', 'secerr', 'kbdint')
+
+
+class ScriptedDeviceError(IOError):
+    """what driver libraries raise: a subclass of IOError (serial.SerialException, usb1.USBError, ...)"""
+
+
+class ScriptedDecryptionError(sec.DecryptionError):
+    pass
+
+
+# An error cause may name a member of the family of exceptions the run loop has to treat alike
+# ('ioerror:timedout' ...) and the place where it is raised ('...@collect', '...@dispatch'; default: in
+# mac.exchange).  Python 3 turns IOError(ETIMEDOUT) / IOError(EPIPE) into the builtin subclasses TimeoutError /
+# BrokenPipeError; nfc.clf.transport raises IOError(errno.ETIMEDOUT) and IOError(errno.EPIPE).
+ERROR_FAMILY = {
+    'ioerror': lambda: IOError(_errno.EIO, 'scripted'),
+    'ioerror:timedout': lambda: IOError(_errno.ETIMEDOUT, 'scripted'),
+    'ioerror:epipe': lambda: IOError(_errno.EPIPE, 'scripted'),
+    'ioerror:enodev': lambda: IOError(_errno.ENODEV, 'scripted'),
+    'ioerror:eacces': lambda: IOError(_errno.EACCES, 'scripted'),
+    'ioerror:sub': lambda: ScriptedDeviceError(_errno.EIO, 'scripted'),
+    'secerr': lambda: sec.DecryptionError('scripted'),
+    'secerr:keyagree': lambda: sec.KeyAgreementError('scripted'),
+    'secerr:encrypt': lambda: sec.EncryptionError('scripted'),
+    'secerr:sub': lambda: ScriptedDecryptionError('scripted'),
+}
+PLACES = ('exchange', 'collect', 'dispatch')
+
+
+def base_cause(cause):
+    return cause.split('@')[0].split(':')[0]
 GB = b'Ffm' + bytes.fromhex('010113' '02020078' '040132')     # version 1.3, MIUX 120 (MIU 248), LTO 500 ms
 
 
@@ -42,7 +73,12 @@ class Peer(object):
        push  {exchange index: [pdu, ...]}    PDUs the peer sends on its own"""
 
     def __init__(self, sch, cause, end_at, cc=True, snl=True, ack=True, dm=True, push=None):
-        self.sch, self.cause, self.end_at = sch, cause, end_at
+        self.sch, self.full_cause, self.end_at = sch, cause, end_at
+        self.cause = base_cause(cause)
+        self.member = cause.split('@')[0]
+        self.where = cause.split('@')[1] if '@' in cause else 'exchange'
+        if self.cause in ('ioerror', 'secerr') and self.member not in ERROR_FAMILY:
+            raise ValueError('unknown error cause ' + cause)
         self.cc, self.snl, self.ack, self.dm = cc, snl, ack, dm
         self.push = dict(push or {})
         self.k = 0
@@ -81,7 +117,9 @@ class Peer(object):
         sent = pdu.decode(send_data) if send_data is not None else None
         if self.ended:
             return None
-        if k >= self.end_at and self.cause != 'terminate':
+        if k >= self.end_at and self.cause in ('ioerror', 'secerr') and self.where != 'exchange':
+            pass          # the error is raised by the wrapped llc.collect / llc.dispatch (see arm())
+        elif k >= self.end_at and self.cause != 'terminate':
             self.ended = True
             self.sch.note('end', self.cause)
             if self.cause == 'disc':
@@ -90,10 +128,8 @@ class Peer(object):
                 return None
             if self.cause == 'commerr':
                 raise nfc.clf.TimeoutError('scripted')
-            if self.cause == 'ioerror':
-                raise IOError(_errno.EIO, 'scripted')
-            if self.cause == 'secerr':
-                raise sec.DecryptionError('scripted')
+            if self.cause in ('ioerror', 'secerr'):
+                raise ERROR_FAMILY[self.member]()
             if self.cause == 'kbdint':
                 raise KeyboardInterrupt()
         self.react(sent)
@@ -102,6 +138,21 @@ class Peer(object):
         if self.pending:
             return pdu.encode(self.pending.pop(0))
         return pdu.encode(pdu.Symmetry())
+
+
+def arm(peer, llc):
+    """errors raised inside the link loop but outside mac.exchange: in collect() or dispatch()"""
+    if peer.cause not in ('ioerror', 'secerr') or peer.where == 'exchange':
+        return
+    real = getattr(llc, peer.where)
+
+    def wrapped(*a, **kw):
+        if peer.k >= peer.end_at and not peer.ended:
+            peer.ended = True
+            peer.sch.note('end', peer.full_cause)
+            raise ERROR_FAMILY[peer.member]()
+        return real(*a, **kw)
+    setattr(llc, peer.where, wrapped)
 
 
 def make_llc(peer, role='initiator', **options):
@@ -288,6 +339,7 @@ def run_scenario(build, cause, end_at, chooser=None, role='initiator', peer_kw=N
     with S.install(sch, MODULES):
         peer = Peer(sch, cause, end_at, **(peer_kw or {}))
         llc = make_llc(peer, role, **(llc_options or {}))
+        arm(peer, llc)
         ctx = Ctx(sch)
         ctx.peer = peer
         saved_init = tco.TransmissionControlObject.__init__
